@@ -42,7 +42,7 @@ LEVEL_NOTE = ("Trusted: interposer, fault wrappers.  Signed "
               "ServerKeyExchange carrying a bad share is not built (the "
               "signature would already fail); anon suites and TLS 1.3 cover "
               "the client-side share checks.")
-BUDGET = {"quick": 60, "thorough": 1200}
+BUDGET = {"quick": 300, "thorough": 1200}
 CHUNK = 8
 PROBES = ["fault", "share", "agree", "fault_ske", "fault_cv13_server",
           "fault_cv_client", "fault_pha", "rsa", "ecdsa", "eddsa", "dsa",
